@@ -72,8 +72,10 @@ CLAIMED["C22"] = ("Proof of the comparison performed by gnmidiff.DiffSetRequest 
     "MissingDeletes = A.D \\ B.D, ExtraDeletes = B.D \\ A.D; every update path of A or B lands in exactly one of Common (both, DeepEqual, A's value), "
     "Mismatched (both, not DeepEqual, values in A/B order), Missing (only A) and Extra (only B); an error is returned iff one of the intents cannot be built. "
     "Lemmas over the postcondition: diff(a,a) has nothing missing, extra or mismatched; swapping arguments swaps missing/extra and A/B. reflect.DeepEqual is "
-    "assumed reflexive and symmetric. Not covered: that requests with the same intent (JSON vs leaf updates, prefix splits, reordering) normalise to equal "
-    "intents - minimalSetRequestIntent, flattenOCJSON and the path-string functions are outside this check.", "5 (C22)", "")
+    "assumed reflexive and symmetric. One normalisation kernel is also proved: protoLeafToJSON represents a leaf given as a TypedValue the way encoding/json "
+    "decodes its RFC 7951 form (string, bool, float64 for (u)int, a non-nil []interface{} of the same length for a leaf-list). Not covered otherwise: that "
+    "requests with the same intent (JSON vs leaf updates, prefix splits, reordering) normalise to equal intents - minimalSetRequestIntent, flattenOCJSON and "
+    "the path-string functions are outside this check.", "5 (C22)", "")
 
 GENNOTE = ("The verified text is the output of the working tree's generator, produced on every run (go build ./generator, run on the schema corpus: "
     "/verif/schemas/vlists.yang with every supported key type and the repository's ctestschema (compressed paths) in the quick tier, plus utestschema "
@@ -106,14 +108,19 @@ CLAIMED["C16"] = ("Proof of the key string encode/decode pairing for non-enumera
     "itoa(x) exactly when x fits the bit size): ygot.KeyValueAsString succeeds for every value of every signed and unsigned integer kind (int64 included) with "
     "the decimal rendering itoa(value), returns a string value unchanged, booleans as true/false and float64 as a string that parses back to the same float; "
     "ytypes.StringToType parses at the bit size of the target Go type, succeeds exactly when strconv does, and returns a value of the requested type holding "
-    "atoi(s), the string itself, or the boolean. Not covered: enumeration, identityref and union keys (enumFieldToString / castToEnumValue / unionPtrValue are "
-    "uninterpreted), key comparison in retrieveNodeList, entry creation in SetNode (reflection walkers).", "5 (C16)", "")
+    "atoi(s), the string itself, or the boolean; ytypes.stringToKeyType (the schema-driven decoder SetNode uses to create an entry from a path) parses the "
+    "integer YANG kinds with ParseInt resp. ParseUint at the kind's bit size (util.YangIntTypeBits proved) and returns the kind's Go type, through leafrefs too "
+    "(util.FindLeafRefSchema assumed). Not covered: enumeration, identityref, union, binary, decimal64 keys (enumFieldToString / castToEnumValue / unionPtrValue / "
+    "stringToUnionType are uninterpreted), key comparison in retrieveNodeList, entry creation in SetNode (reflection walkers).", "5 (C16)", "")
 
 CLAIMED["C19"] = ("Proof of the RFC 7951 scalar rule in ygot.writeIETFScalarJSON for every dynamic type: values of kind int64 / uint64 are returned as the decimal string "
     "itoa(value); float64 (decimal64 leaves) as a string in the RFC 7950 decimal lexical form - no exponent - that parses back to the same float64 (assumed "
     "law of strconv.FormatFloat(f, 'f', -1, 64); fmt's %v has no such law, which is how the exponent defect was found); every other value is returned "
-    "unchanged, so 8/16/32-bit integers and booleans stay JSON numbers / booleans. Not covered: which kind reaches this function (jsonValue / structJSON dispatch "
-    "- reflection walkers), base64 of binary, [null] for empty, enumeration names (C17), module-name prefixes (prependmodsJSON), encoding/json itself.",
+    "unchanged, so 8/16/32-bit integers and booleans stay JSON numbers / booleans. Module-name prefixes: prependmodsJSON is proved to return, for every "
+    "data-tree path of a field and every element of it, the empty string exactly when the element's (rewritten) module equals its parent's - the enclosing "
+    "struct's module for the first element, the previous element's otherwise - and the rewritten module name otherwise (nested loop invariants; "
+    "rewriteModName proved; structTagToLibModules uninterpreted). Not covered: which kind reaches writeIETFScalarJSON and which parent module reaches "
+    "prependmodsJSON (jsonValue / structJSON / jsonSlice - reflection walkers), base64 of binary, [null] for empty, enumeration names (C17), encoding/json itself.",
     "5 (C19)", "")
 
 CLAIMED["C05"] = ("Proof of the conflict-detection kernels of MergeStructs (the merge itself, a reflection walker, is not covered): orderedMapKeysMergeable returns an error "
@@ -128,14 +135,35 @@ CLAIMED["C07"] = ("Proof of the element-count rule of tree validation: validateL
     "of the Go slice / map) is at least min-elements and, when max-elements is non-zero, at most max-elements, and reports an error for a nil schema, missing list "
     "attributes or a value of another kind; validateLeafList is proved to report every leaf-list whose element count is outside its bounds (it had no such "
     "check: repaired); the error-accumulation helpers util.AppendErr / AppendErrs never lose an error. The per-element check validateLeaf, reflect.Value.Len and "
-    "GoOrderedMap.Len are uninterpreted. Not covered: enumeration / identity membership, union member fitting, list key agreement (checkKeys), leaf-list "
-    "uniqueness, choice/case exclusivity, leafrefs - all inside reflection walkers; ranges, lengths and patterns are C06.", "5 (C07)", "")
+    "GoOrderedMap.Len are uninterpreted. Key agreement: checkBasicKeyValue and checkStructKeyValues are proved to report no error exactly when the map key "
+    "(every member of a key struct) equals the entry's key leaf - the value the key field points to, the field itself for non-pointer leaves or a nil pointer "
+    "(struct field access through reflect is uninterpreted). Not covered: enumeration / identity membership, union member fitting, leaf-list uniqueness, "
+    "choice/case exclusivity, leafrefs and the dispatch that reaches these kernels - reflection walkers; ranges, lengths and patterns are C06.", "5 (C07)", "")
 
 CLAIMED["C24"] = ("Proof of the type agreement between the two directions of protomap for ywrapper fields: every entry parseField adds to the path map for a field "
     "whose message is a UintValue / StringValue / BytesValue wrapper has dynamic type uint64 / string / []byte, and makeWrapper accepts exactly such a value for a "
-    "field of that wrapper type (no error, wrapper produced) and reports 'not a wrapper' only for other message types. protobuf reflection (descriptors, "
-    "NewField, Message, Interface) is uninterpreted. Not covered: lists, leaf-lists, unions, enums, keyed lists, path annotation look-up and message equality "
-    "of the full round trip.", "5 (C24)", "")
+    "field of that wrapper type (no error, wrapper produced) and reports 'not a wrapper' only for other message types; listKeyAsProtoValue accepts for a uint64 "
+    "key field exactly the strings strconv.ParseUint accepts at 64 bits and every string for a string key field. protobuf reflection (descriptors, "
+    "NewField, Message, Interface) is uninterpreted. Not covered: lists, leaf-lists, unions, enums, list entry creation, path annotation look-up and message "
+    "equality of the full round trip.", "5 (C24)", "")
+
+CLAIMED["C23"] = ("Proof of the classification performed by gnmidiff.DiffSetRequestToNotifications over abstract intents: the SetRequest's intent S (deleted paths, "
+    "leaf updates) is the uninterpreted function of (request, schema) also used for C22; the leaves carried by the notifications are collected by populateUpdate "
+    "(schema walk / JSON flattening: assumed deterministic, so the collected map N is a function of the ghost sequence of (path, value) pairs fed to it, empty for "
+    "the empty sequence). For all S and N of any size, every map iteration order, and the trie library used by its assumed contract (a set of keys with "
+    "prefix search), the result is proved to be exactly: Common = S leaves present in N with DeepEqual values, Mismatched = present with unequal values (values in "
+    "S/N order), Missing = S leaves absent from N, Extra = leaves of N that S does not write and that lie under a path S deletes ('<deleted path>/' is a prefix). "
+    "Hence N == S.updates gives nothing missing, extra or mismatched, and removing / changing one leaf or adding one under a deleted subtree moves exactly that "
+    "leaf. Not covered: that populateUpdate and minimalSetRequestIntent compute the intents correctly, notifications carrying deletes (rejected).", "5 (C23)", "")
+
+CLAIMED["C03"] = ("Proof of the comparison kernel of ygot.diff (Diff / DiffWithAtomic) at the level of the leaf maps: the leaf maps of the two trees (path string -> "
+    "(value, gNMI path)) are the uninterpreted results of findSetLeaves / toStringPathMap (tree walk; assumed to build one record per path); appendUpdate and "
+    "orderedMapNotif (encoding, ordered-list walk) are assumed only to record what they were given in ghost sets. For all leaf maps of any size, every map "
+    "iteration order and every option list, diff is proved to emit an update for exactly the leaves of the modified tree whose value is not DeepEqual to the "
+    "original's, plus - unless IgnoreAdditions is given - exactly the leaves absent from the original; to put into the delete list exactly the paths of the "
+    "leaves set in the original and absent from the modified tree (every such leaf deleted, nothing else in the list); consequently Diff(a, a) emits nothing. "
+    "Not covered: that the leaf maps equal the trees' leaf sets (findSetLeaves), that applying the notifications to a gives b (UnmarshalNotifications, "
+    "SetNode - reflection), TypedValue encoding, ordered-list order under DiffWithAtomic.", "5 (C03)", "")
 
 NA = {
     "C01": "RFC7951 JSON round-trip is a relation between two reflection walkers (structJSON/jsonValue vs unmarshalStruct/unmarshalList) over arbitrary generated struct types; no function-level contract within this verifier's reach carries it (no reflect memory model). Scalar kernels are decided under C18/C19 where claimed.",
